@@ -53,14 +53,16 @@ func c42AMap(m *d2ast.Map, bad *bool) string {
 		}
 		mk := n.MapKey
 		name := "None"
+		unq := false
 		if mk.Key != nil && len(mk.Key.Path) > 0 {
 			name = "(Some " + c42Str(mk.Key.Path[0].Unbox().ScalarString()) + ")"
+			unq = mk.Key.Path[0].Unbox().IsUnquoted()
 		}
 		sub := "None"
 		if mk.Value.Map != nil {
 			sub = "(Some " + c42AMap(mk.Value.Map, bad) + ")"
 		}
-		ks = append(ks, fmt.Sprintf("AKey %s %s", name, sub))
+		ks = append(ks, fmt.Sprintf("AKey %s %s %s", name, coqBool(unq), sub))
 	}
 	if !c42RangeOK(m.Range) {
 		*bad = true
@@ -135,8 +137,9 @@ func c42Boards(m *d2ast.Map, st int, path []string, out *[]c42Block) {
 	}
 }
 
-// known-finding signatures: keys where getBoardPathAtPosition (first segment, exact lower-case text,
-// quoting ignored) and the compiler disagree about what is a board
+// known-finding signature: keys where getBoardPathAtPosition (first segment only) and the compiler (whole
+// key path) disagree about what is a board.  (Quoted keywords and keywords in another case were repaired
+// by d2 f9da14f23 and are expected to pass.)
 func c42BoardKF(m *d2ast.Map, kf map[string]bool) {
 	for _, n := range m.Nodes {
 		if n.MapKey == nil {
@@ -148,13 +151,6 @@ func c42BoardKF(m *d2ast.Map, kf map[string]bool) {
 		}
 		if mk.Key == nil || len(mk.Key.Path) == 0 || mk.Value.Map == nil {
 			continue
-		}
-		first := mk.Key.Path[0].Unbox()
-		if !first.IsUnquoted() && c42BoardKW[first.ScalarString()] {
-			kf["C42-board-keyword-quoted"] = true
-		}
-		if first.IsUnquoted() && !c42BoardKW[first.ScalarString()] && c42BoardKW[strings.ToLower(first.ScalarString())] {
-			kf["C42-board-keyword-case"] = true
 		}
 		if len(mk.Key.Path) > 1 {
 			for _, sb := range mk.Key.Path {
@@ -919,8 +915,29 @@ func c42GenFileSet(r *Rng, core bool) *c42FileSet {
 	}
 	var sb strings.Builder
 	g.body(&sb, "", 0, true, 0)
+	main := sb.String()
+	// The same keys at the same positions in two files: the first plain lines of the main file also open an
+	// imported file that is spread into the root, so a key has declarations with identical line/column/byte
+	// in different files (ranges differ by Range.Path only).
+	if nimp > 0 && r.Chance(0.6) {
+		var head []string
+		for _, l := range strings.Split(main, "\n") {
+			if l == "" || strings.ContainsAny(l, "@${}*|#'") || strings.Contains(l, "null") || len(head) == 3 {
+				break
+			}
+			head = append(head, l)
+		}
+		if len(head) > 0 {
+			j := r.Intn(nimp)
+			impTexts[j] = strings.Join(head, "\n") + "\n" + impTexts[j]
+			spread := fmt.Sprintf("...@f%d\n", j+1)
+			if !strings.Contains(main, "\n"+spread) {
+				main += spread
+			}
+		}
+	}
 	fs.Names = append(fs.Names, "index.d2")
-	fs.Texts = append(fs.Texts, sb.String())
+	fs.Texts = append(fs.Texts, main)
 	for i, t := range impTexts {
 		fs.Names = append(fs.Names, fmt.Sprintf("f%d.d2", i+1))
 		fs.Texts = append(fs.Texts, t)
@@ -988,8 +1005,12 @@ var c42Corpus = []struct {
 	{"corpus", []string{"X\nx.A: {\n  b -> B\n}\n\"a.b\".c -> x.a\n'my obj'.x\nMy Obj"}, true},
 	{"corpus", []string{"a.b.c: {\n  d.e: {\n    f\n  }\n}\na.B.c.D.e.F -> a.b\nA: {b: {C}}"}, true},
 	{"corpus-kf", []string{"x\nlayers.a: {\n  y\n  steps: { 1: { z } }\n}\n"}, false},
-	{"corpus-kf", []string{"x\n\"layers\": {\n  q: { w }\n}\n"}, false},
-	{"corpus-kf", []string{"x\nScenarios: {\n  s: { v }\n}\n"}, false},
+	{"corpus-fixed", []string{"x\n\"layers\": {\n  q: { w }\n}\n"}, false},
+	{"corpus-fixed", []string{"x\nScenarios: {\n  s: { v }\n}\n"}, false},
+	{"corpus-fixed", []string{"STEPS: {\n  a: { 'scenarios': { b: { c } }; Layers: { d: { e } } }\n}\n"}, false},
+	// the same key at the same position in two files: both declarations must be returned
+	{"corpus", []string{"x\n...@ok\n", "x: {shape: circle}\n"}, false},
+	{"corpus", []string{"a -> b\nk: @ok\nc.d\n...@ok\n", "a -> b: hi\nc.d: {\n  e\n}\n"}, false},
 	{"corpus", []string{"layers: {\n  b: { k }\n  c.d: { m }\n}\nscenarios: { s: { layers: { l: { z } } }; t: {} }\n"}, false},
 	{"corpus", []string{"style.fill: red\nx.style: {\n  fill: blue\n  opacity: 0.\n}\nx.shape: \ny: { shape: ; style. }\n(a -> b)[0].source-arrowhead.shape: \nlabel.near: \n"}, false},
 	{"corpus", []string{"a -> b: {\n  source-arrowhead: {\n    shape: diamond\n  }\n  style.animated: true\n}\ndirection: right\nx.near: top-left\nx.icon.near: \nx.tooltip: \n"}, false},
